@@ -427,6 +427,8 @@ def run_edits(k, b, res):
       res.states += 1
       nops = len(edit_ops(make(so, tagged)))
       for ln in range(1, b['edits'] + 1):
+        if ln > 1 and not TAG_ALL and len(so) > 2:
+          continue     # quick tier: longer chains on shapes of <= 2 nodes
         for seq in itertools.product(range(nops), repeat=ln):
           def mk_new(old, seq=seq):
             new = copy.deepcopy(old)
